@@ -33,6 +33,9 @@ SOURCES = [
 SHADOW_USES = [('len', 'len("abc")'), ('len', 'q = [1, 2, 3] | len\nq'), ('str', 'str(12) + "a"'), ('max', 'max(1, 2)'), ('lower', '"AB" | lower'),
                ('sorted', '[3, 1, 2] | sorted'), ('keys', 'keys({"a": 1})'), ('round', 'round(2.5)'), ('map', '[1, 2] | map(v => v + 1)'),
                ('list', '[1, 2]'), ('dict', '{"a": 1}'), ('__getitem__', '[1, 2][0]')]
+STORIES = [('total = 5', 'total'), ('len = 3', 'len("abc")'), ('k = 7\nk', 'k + 1'), ('x = 1; y = 2\nx + y', 'y'), ('q = [1]\nq += [2]', 'q'),
+           ('str = v => "s"', 'str(1)'), ('z = 1\nz = z / 0', 'z'), ('t = [1, 2, 3] | map(v => v)\nt', 't | len'), ('f = v => v + 1', 'f(1)'),
+           ('max = 2', '[1, 2] | max'), ('u = 1\nundefined_name', 'u')]
 NEAR = [lambda s: s, lambda s: s + '\n', lambda s: ' ' + s, lambda s: '\n' + s, lambda s: s + '  ', lambda s: s + '\n\n',
         # every blank doubled / turned into a tab - also INSIDE string literals and %...% names, where it makes a different program
         lambda s: s.replace(' ', '  '), lambda s: s.replace(' ', '\t'), lambda s: s.replace('  ', ' ')]
@@ -119,6 +122,16 @@ def random_calls(r, n, with_eval=True):
         if op == 'names_partial':
             c['k'] = r.choice([0, 1, 2])
         calls.append(c)
+    if with_eval and r.random() < 0.4:
+        # a story: an evaluation WITHOUT a names mapping (or with one) assigns a name / shadows a builtin / fails after assigning;
+        # a later evaluation (same or other mapping, or none) reads that name or uses that builtin
+        w, rd = r.choice(STORIES)
+        n1 = r.choice([None, None, 0, 2])
+        first = {'op': 'eval', 'src': w, 'kind': 'valid', 'max': r.choice([None, None, 4]), 'n': n1}
+        later = {'op': 'eval', 'src': rd, 'kind': 'runtime', 'max': None, 'n': r.choice([None, n1, 1])}
+        i = r.randrange(0, len(calls) + 1)
+        j = r.randrange(i, len(calls) + 1)
+        calls = calls[:i] + [first] + calls[i:j] + [later] + calls[j:]
     return calls
 
 
